@@ -13,10 +13,14 @@ theorem dropPre_append (p r : Text) : dropPre p (p ++ r) = some r := by
   | nil => cases r <;> rfl
   | cons a p ih => simp [dropPre, ih]
 
-theorem spanField_append (f r : Text) (hf : f.all isFieldChar = true) :
-    spanField (f ++ ':' :: r) = (f, ':' :: r) := by
+theorem isFieldChar_colon (W : Word) (hW : W.Sound) : isFieldChar W ':' = false := by
+  simp [isFieldChar, hW.2]
+
+theorem spanField_append (W : Word) (hW : W.Sound) (f r : Text)
+    (hf : f.all (isFieldChar W) = true) :
+    spanField W (f ++ ':' :: r) = (f, ':' :: r) := by
   induction f with
-  | nil => simp [spanField, isFieldChar]
+  | nil => simp [spanField, isFieldChar_colon W hW]
   | cons a f ih =>
     simp only [List.all_cons, Bool.and_eq_true] at hf
     simp [spanField, hf.1, ih hf.2]
@@ -31,29 +35,32 @@ theorem spanNoSemi_append (v r : Text) (hv : noSemi v = true) :
       have := hv.1; simpa [bne] using this
     simp [spanNoSemi, ha, ih (by simpa [noSemi] using hv.2)]
 
-theorem dotEnd_noNL (p : Text) (hp : noNL p = true) : dotEnd p = some p := by
+/-- `[^;]*` stops at the first `;`: what remains is at least what follows any given `;` -/
+theorem spanNoSemi_snd_length (v r : Text) :
+    (';' :: r).length ≤ (spanNoSemi (v ++ ';' :: r)).2.length := by
+  induction v with
+  | nil => simp [spanNoSemi]
+  | cons a v ih =>
+    simp only [List.cons_append, spanNoSemi]
+    split
+    · simp; omega
+    · exact ih
+
+theorem dropPre_eq : ∀ (p s r : Text), dropPre p s = some r → s = p ++ r := by
+  intro p
   induction p with
-  | nil => rfl
-  | cons a p ih =>
-    simp only [noNL, List.all_cons, Bool.and_eq_true] at hp
-    have ha : (a == '\n') = false := by
-      have := hp.1; simpa [bne] using this
-    simp [dotEnd, ha, ih (by simpa [noNL] using hp.2)]
-
-theorem noNL_append (a b : Text) : noNL (a ++ b) = (noNL a && noNL b) := by
-  simp [noNL, List.all_append]
-
-/-- a text with an inner newline defeats `(.*)$` -/
-theorem dotEnd_none_of_inner_newline (a b : Text) (hb : b ≠ []) :
-    dotEnd (a ++ '\n' :: b) = none := by
-  induction a with
-  | nil => cases b with
-    | nil => exact absurd rfl hb
-    | cons c cs => simp [dotEnd]
-  | cons c a ih =>
-    simp only [List.cons_append, dotEnd, ih, Option.map_none]
-    have : (a ++ '\n' :: b).isEmpty = false := by cases a <;> rfl
-    simp [this]
+  | nil => intro s r h; cases s <;> simp [dropPre] at h <;> simp [h]
+  | cons x p ihp =>
+    intro s r h
+    cases s with
+    | nil => simp [dropPre] at h
+    | cons y s =>
+      simp only [dropPre] at h
+      split at h
+      · rename_i hxy
+        have := ihp s r h
+        simp at hxy; simp [hxy, this]
+      · simp at h
 
 theorem splitLast_eq (pat : Text) : ∀ (line a b : Text), splitLast pat line = some (a, b) →
     line = a ++ pat ++ b := by
@@ -111,7 +118,7 @@ theorem splitLast_append (pat : Text) (hpat : pat ≠ []) (p v : Text) :
     · simp only [List.cons_append, splitLast, h]
     · simp; exact hl
 
-theorem transform_nonempty (p : Text) (hp : p ≠ []) : (transform p).1 ≠ [] := by
+theorem transform_nonempty (p : Text) (hp : p ≠ []) : transform p ≠ [] := by
   unfold transform
   split
   · exact hp
@@ -121,49 +128,68 @@ theorem transform_nonempty (p : Text) (hp : p ≠ []) : (transform p).1 ≠ [] :
 
 /-! ### the regex cascade on `<field>: <rest>` -/
 
-theorem identOk_iff (f : Text) : identOk f = true ↔ f ≠ [] ∧ f.all isFieldChar = true := by
+theorem identOk_iff (W : Word) (f : Text) :
+    identOk W f = true ↔ f ≠ [] ∧ f.all (isFieldChar W) = true := by
   cases f <;> simp [identOk]
 
-theorem parseMsg_header (f rest : Text) (hf : identOk f = true) :
-    parseMsg (f ++ ':' :: ' ' :: rest) =
+theorem parseMsg_header (W : Word) (hW : W.Sound) (f rest : Text) (hf : identOk W f = true) :
+    parseMsg W (f ++ ':' :: ' ' :: rest) =
       match parseTail ' ' rest with
-      | some vp => ⟨some f, vp.1, (transform vp.2).1, (transform vp.2).2⟩
-      | none => ⟨none, none, f ++ ':' :: ' ' :: rest, false⟩ := by
-  obtain ⟨hne, hall⟩ := (identOk_iff f).1 hf
+      | some vp => ⟨some f, vp.1, transform vp.2⟩
+      | none => ⟨none, none, f ++ ':' :: ' ' :: rest⟩ := by
+  obtain ⟨hne, hall⟩ := (identOk_iff W f).1 hf
   cases f with
   | nil => exact absurd rfl hne
   | cons a as =>
     unfold parseMsg
-    rw [spanField_append _ _ hall]
+    rw [spanField_append W hW _ _ hall]
     simp only [dropPre, beq_self_eq_true, if_true]
     cases parseTail ' ' rest <;> rfl
 
 theorem parseTail_space (rest : Text) :
     parseTail ' ' rest = match m1tail rest with
       | some vp => some (some vp.1, vp.2)
-      | none => m23tail rest := by
+      | none => some (m23tail rest) := by
   unfold parseTail
   have : isPySpace ' ' = true := by decide
   cases m1tail rest <;> simp [this]
 
-theorem parseTail_isSome (rest : Text) : (parseTail ' ' rest).isSome = recoverable rest := by
+/-- with DOTALL regex 3 always matches: the cascade never fails after a well-formed header -/
+theorem parseTail_isSome (rest : Text) : (parseTail ' ' rest).isSome = true := by
   rw [parseTail_space]
-  unfold recoverable m23tail
-  cases m1tail rest <;> cases dotEnd rest <;> simp
+  cases m1tail rest <;> rfl
 
 /-- field group of the cascade on `<field>: <rest>` -/
-theorem parse_field (f rest : Text) (hf : identOk f = true) :
-    (parseMsg (f ++ ':' :: ' ' :: rest)).field = if recoverable rest then some f else none := by
-  rw [parseMsg_header f rest hf, ← parseTail_isSome]
-  cases parseTail ' ' rest <;> simp
+theorem parse_field (W : Word) (hW : W.Sound) (f rest : Text) (hf : identOk W f = true) :
+    (parseMsg W (f ++ ':' :: ' ' :: rest)).field = some f := by
+  rw [parseMsg_header W hW f rest hf]
+  have := parseTail_isSome rest
+  cases h : parseTail ' ' rest with
+  | none => simp [h] at this
+  | some vp => rfl
 
-theorem m1tail_gotFirst (v p : Text) (hv : noSemi v = true) (hp : noNL p = true) :
+theorem m1tail_gotFirst (v p : Text) (hv : noSemi v = true) :
     m1tail (body .gotFirst v p) = some (v, p) := by
   unfold m1tail body
   rw [dropPre_append]
   simp only [Option.bind_some, sSemiSp, List.cons_append, List.nil_append]
   rw [spanNoSemi_append v _ hv]
-  simp [dropPre, dotEnd_noNL p hp]
+  simp [dropPre]
+
+/-- regex 1 on `Got <x>; <y>` with ANY `x`: the problem group contains at least `y` -/
+theorem m1tail_problem_length (x y : Text) (vp : Text × Text)
+    (h : m1tail (sGot ++ (x ++ (sSemiSp ++ y))) = some vp) : y.length ≤ vp.2.length := by
+  unfold m1tail at h
+  rw [dropPre_append] at h
+  simp only [Option.bind_some, Option.map_eq_some_iff] at h
+  obtain ⟨r3, hr3, hvp⟩ := h
+  have hlen := spanNoSemi_snd_length x (' ' :: y)
+  have heq := dropPre_eq _ _ _ hr3
+  simp only [sSemiSp, List.cons_append, List.nil_append] at heq hlen
+  rw [heq] at hlen
+  rw [← hvp]
+  simp at hlen ⊢
+  omega
 
 theorem m1tail_none_of_head (rest : Text) (h : rest.head? ≠ some 'G') : m1tail rest = none := by
   unfold m1tail sGot
@@ -174,34 +200,15 @@ theorem m1tail_none_of_head (rest : Text) (h : rest.head? ≠ some 'G') : m1tail
       simp at h; simp; exact fun hc => h hc.symm
     simp [dropPre, this]
 
-/-- regexes 2 / 3 on a one-line rest -/
-theorem parseTail_line (rest : Text) (hG : rest.head? ≠ some 'G') (hl : noNL rest = true) :
-    parseTail ' ' rest = some (match splitLast sSemiGot rest with
-      | some pv => (some pv.2, pv.1)
-      | none => (none, rest)) := by
+/-- regexes 2 / 3 when regex 1 cannot match -/
+theorem parseTail_line (rest : Text) (hG : rest.head? ≠ some 'G') :
+    parseTail ' ' rest = some (m23tail rest) := by
   rw [parseTail_space, m1tail_none_of_head rest hG]
-  simp only [m23tail, dotEnd_noNL rest hl, Option.map_some]
-  cases splitLast sSemiGot rest <;> rfl
-
-/-! ### recoverability of rendered bodies -/
-
-theorem recoverable_of_noNL (sh : Shape) (v p : Text) (hv : noNL v = true) (hp : noNL p = true) :
-    recoverable (body sh v p) = true := by
-  have h1 : noNL sGot = true := by decide
-  have h2 : noNL sSemiSp = true := by decide
-  have h3 : noNL sSemiGot = true := by decide
-  have : noNL (body sh v p) = true := by
-    cases sh <;> simp only [body, noNL_append, hv, hp, h1, h2, h3, Bool.and_self]
-  simp [recoverable, dotEnd_noNL _ this]
-
-theorem recoverable_gotFirst (v p : Text) (hv : noSemi v = true) (hp : noNL p = true) :
-    recoverable (body .gotFirst v p) = true := by
-  simp [recoverable, m1tail_gotFirst v p hv hp]
 
 /-! ### the helper -/
 
 theorem internal_field (ff : Bool) (J : Codec) (fuel : Nat) (s : Text) :
-    (internal ff J fuel s).field = (parseMsg s).field := by
+    (internal ff J fuel s).field = (parseMsg J.word s).field := by
   cases fuel with
   | zero => rfl
   | succ n =>
@@ -214,7 +221,7 @@ theorem internal_field (ff : Bool) (J : Codec) (fuel : Nat) (s : Text) :
 
 theorem internal_failFast (J : Codec) (fuel : Nat) (s : Text) :
     internal true J fuel s =
-      .leaf (parseMsg s).field (parseMsg s).value (parseMsg s).problem (parseMsg s).opaqueMatch := by
+      .leaf (parseMsg J.word s).field (parseMsg J.word s).value (parseMsg J.word s).problem := by
   cases fuel <;> simp [internal]
 
 theorem readable_collected (J : Codec) (hJ : J.RoundTrip) (ts : List Text) :
@@ -224,36 +231,49 @@ theorem readable_collected (J : Codec) (hJ : J.RoundTrip) (ts : List Text) :
 
 /-! ### text facts used for paths -/
 
-theorem isFieldChar_digit (d : Nat) : isFieldChar (digitChar d) = true := by
+theorem isFieldChar_ascii (W : Word) (hW : W.Sound) (c : Char) (h : c.isAlphanum = true) :
+    isFieldChar W c = true := by
+  simp [isFieldChar, hW.1 c h]
+
+theorem isFieldChar_digit (W : Word) (hW : W.Sound) (d : Nat) :
+    isFieldChar W (digitChar d) = true := by
+  apply isFieldChar_ascii W hW
   unfold digitChar
   split <;> decide
 
-theorem natText_all (fuel n : Nat) : (natText fuel n).all isFieldChar = true := by
+theorem natText_all (W : Word) (hW : W.Sound) (fuel n : Nat) :
+    (natText fuel n).all (isFieldChar W) = true := by
   induction fuel generalizing n with
-  | zero => simp [natText, isFieldChar_digit]
+  | zero => simp [natText, isFieldChar_digit W hW]
   | succ k ih =>
     simp only [natText]
     split
-    · simp [isFieldChar_digit]
-    · simp [List.all_append, ih, isFieldChar_digit]
+    · simp [isFieldChar_digit W hW]
+    · simp [List.all_append, ih, isFieldChar_digit W hW]
 
-theorem suffix_all (s : Suffix) : s.text.all isFieldChar = true := by
+theorem suffix_all (W : Word) (hW : W.Sound) (s : Suffix) :
+    s.text.all (isFieldChar W) = true := by
+  have hu : isFieldChar W '_' = true := by simp [isFieldChar]
+  have ha : ∀ c : Char, c.isAlphanum = true → isFieldChar W c = true := isFieldChar_ascii W hW
   cases s with
   | none => rfl
-  | idx i =>
-    simp only [Suffix.text, List.all_cons, natText_all, Bool.and_true]; decide
-  | key => decide
-  | val => decide
+  | idx i => simp only [Suffix.text, List.all_cons, natText_all W hW, hu, Bool.and_true]
+  | key =>
+    simp only [Suffix.text, List.all_cons, List.all_nil, hu, ha 'k' (by decide), ha 'e' (by decide),
+      ha 'y' (by decide), Bool.and_true]
+  | val =>
+    simp only [Suffix.text, List.all_cons, List.all_nil, hu, ha 'v' (by decide), ha 'a' (by decide),
+      ha 'l' (by decide), ha 'u' (by decide), ha 'e' (by decide), Bool.and_true]
 
-theorem identOk_path (c top : Text) (s : Suffix) (hc : identOk c = true) (ht : identOk top = true) :
-    identOk (withClass (some c) (top ++ s.text)) = true := by
-  obtain ⟨hcn, hca⟩ := (identOk_iff c).1 hc
-  obtain ⟨_, hta⟩ := (identOk_iff top).1 ht
+theorem identOk_path (W : Word) (hW : W.Sound) (c top : Text) (s : Suffix)
+    (hc : identOk W c = true) (ht : identOk W top = true) :
+    identOk W (withClass (some c) (top ++ s.text)) = true := by
+  obtain ⟨hcn, hca⟩ := (identOk_iff W c).1 hc
+  obtain ⟨_, hta⟩ := (identOk_iff W top).1 ht
   rw [identOk_iff]
   refine ⟨by cases c <;> simp_all [withClass], ?_⟩
-  simp only [withClass, List.all_append, List.all_cons, hca, hta, suffix_all, Bool.and_true,
-    Bool.true_and]
-  decide
+  have hd : isFieldChar W '.' = true := by simp [isFieldChar]
+  simp only [withClass, List.all_append, List.all_cons, hca, hta, suffix_all W hW, hd, Bool.and_true]
 
 /-! ### construction model -/
 
